@@ -721,14 +721,14 @@ func init() {
 		doms := []string{"d1", "d2"}
 		var parts []string
 		if !c.Thorough() {
-			a := c16Exhaustive(c, "p3", "plain", n3, []string{""}, true, objs, rw, 2, 0, true)
+			a := c16Exhaustive(c, "p3", "plain", n3, []string{""}, true, objs, rw, 2, 0, false)
 			b := c16Exhaustive(c, "d2", "dom", n2, doms, true, objs, []string{"read"}, 2, 0, false)
 			d := c16Exhaustive(c, "d3", "dom", n3, doms, false, objs, []string{"read"}, 2, 1, false)
-			parts = append(parts, fmt.Sprintf("plain: all 512 graphs on 3 names (incl. self links, cycles) x all policies of <=2 rules over 3 subjects x {data1,data2} x {read,write} up to renaming of objects/actions, i.e. empty or containing a (data1,read) rule (%d cases)", a),
+			parts = append(parts, fmt.Sprintf("plain: all 512 graphs on 3 names (incl. self links, cycles) x all policies of <=2 rules over 3 subjects x {data1,data2} x {read,write} (%d cases)", a),
 				fmt.Sprintf("domains: all 256 graphs on 2 names x 2 domains x all policies of <=2 rules over 2 subjects x 2 domains x 2 objects (%d cases); all 4096 graphs on 3 names x 2 domains without self links x 1 random policy of <=2 rules each (%d cases)", b, d))
 			c16Chains(c)
-			c16Random(c, 400)
-			parts = append(parts, "chains and cycles of 9,10,11,12 edges (both families); 400 seeded random graphs on 4..14 names with policies of <=5 rules")
+			c16Random(c, 1000)
+			parts = append(parts, "chains and cycles of 9,10,11,12 edges (both families); 1000 seeded random graphs on 4..14 names with policies of <=5 rules")
 		} else {
 			a := c16Exhaustive(c, "p3", "plain", n3, []string{""}, true, objs, rw, 3, 0, false)
 			a4 := c16Exhaustive(c, "p4", "plain", n4, []string{""}, true, objs, rw, 3, 4, false)
